@@ -145,7 +145,8 @@ def norm_snapshot(sim):
 
 
 def run_cell(rec, cell):
-    im, ie, it, isk, ih, ij, ic, isrv = cell
+    im, ie, it, isk, ih, ij, ic, isrv = cell[:8]
+    ws_avail = bool(cell[8]) if len(cell) > 8 else True
     method, eio, transport = METHODS[im], EIO[ie], TRANSPORT[it]
     sidk, hdrs, jp, conf, srv = SIDK[isk], HDRS[ih], JP[ij], CONF[ic], SRV[isrv]
     case = {'cell': list(cell)}
@@ -153,9 +154,9 @@ def run_cell(rec, cell):
     kw = {}
     if conf is not None:
         kw['transports'] = conf
-    sim = scen.make_sim(srv, server_kwargs=kw)
+    sim = scen.make_sim(srv, server_kwargs=kw, websocket_available=ws_avail)
     try:
-        pop = prepare(sim, conf)
+        pop = prepare(sim, conf if ws_avail else 'polling')
         sidv = None
         if sidk != 'absent':
             if sidk not in pop or pop[sidk].sid is None:
@@ -175,6 +176,12 @@ def run_cell(rec, cell):
               'upgrade-only': {'Upgrade': 'websocket'},
               'wrong': {'Upgrade': 'h2c', 'Connection': 'Upgrade'}}[hdrs]
         want = must_refuse(method, eio, transport, sidk, hdrs, jp, conf)
+        if not ws_avail:
+            # deployment without a WebSocket driver: whether a WebSocket
+            # request is refused is C06/C11's subject; here only "a refused
+            # request has no effect at all"
+            want = None if want is False else want
+            rec.count('no_driver_requests')
         before = norm_snapshot(sim)
         is_ws = hdrs == 'both' and method == 'GET'
         body = b'4x' if method in ('POST', 'PUT', 'PATCH') else None
@@ -190,8 +197,9 @@ def run_cell(rec, cell):
             ws is not None and t.done and not ws.accepted and t.exc is None
             and srv == 'A' and ws.server_closed)
         desc = ('%s EIO=%r transport=%r sid=%s headers=%s j=%r configured=%r '
-                'server=%s' % (method, eio, transport, sidk, hdrs, jp, conf,
-                               srv))
+                'server=%s%s' % (method, eio, transport, sidk, hdrs, jp, conf,
+                                 srv, '' if ws_avail else
+                                 ' (no WebSocket driver)'))
         if want is True:
             rec.count('must_refuse')
             rec.key('refuse/' + ','.join(map(str, cell)))
@@ -359,6 +367,14 @@ def plan(tier, seed):
                 sum(1 for a, b in zip(c[:7], DEFAULT[:7]) if a != b) <= 4]
         chosen = list(dict.fromkeys(near + fam + fam2)) + \
             rng.sample(allc, 2000)
+    # deployments without a WebSocket driver: every request that names a
+    # session or asks for WebSocket
+    nodrv = [c + (0,) for c in allc
+             if METHODS[c[0]] in ('GET', 'POST') and EIO[c[1]] == '4' and
+             CONF[c[6]] is None and JP[c[5]] in (None, '0') and
+             SIDK[c[3]] in ('absent', 'live', 'closed') and
+             (HDRS[c[4]] != 'none' or TRANSPORT[c[2]] == 'websocket')]
+    chosen = list(chosen) + nodrv
     rng.shuffle(chosen)
     n = 16
     raw = raw_cases(tier, rng)
